@@ -69,7 +69,7 @@ def canon_guard(facts, a, summ):
             return "quals_nonempty"
     if a[0] == "is" and a[2] == "Ok?":
         x = a[1]
-        if x[0] == "call" and ("write_fmt" in x[1] or "write_str" in x[1] or "write_char" in x[1]):
+        if x[0] == "call" and ("write_fmt" in x[1] or "write_str" in x[1] or "write_char" in x[1] or x[1].endswith(" as std::fmt::Display>::fmt") or x[1] == "std::fmt::Display::fmt"):
             return None  # an earlier write succeeded
     if a[0] == "is" and a[2] == "Some":
         x = a[1]
